@@ -269,3 +269,7 @@ pub mod strict;
 
 // imperative interface to building open hypergraphs
 pub mod lax;
+
+// Verification hooks: thin public wrappers around crate-private routines. Off by default.
+#[cfg(feature = "verif-hooks")]
+pub mod verif_hooks;
